@@ -166,7 +166,8 @@ fn abstract_of(doc: &Document) -> (Vec<Value>, Vec<Item>) {
     let mut members = std::collections::BTreeSet::new();
     for (id, o) in doc.objects.iter() {
         let t = walk(o, *id, &mut vec![], &Ctx { insd: false, otyp: "-", inmd: false }, &mut items);
-        let mut t = t.unwrap_or_else(|| json!({"k": "other"}));
+        // (an object without strings that save never writes still is bookkeeping for the object count)
+        let mut t = t.unwrap_or_else(|| if bookkeeping(o) { json!({"k": "dict", "typ": "XRef", "v": []}) } else { json!({"k": "other"}) });
         if let Object::Stream(s) = o {
             if typ_of(&s.dict) == "ObjStm" {
                 let held = guarded(|| lopdf::ObjectStream::new(&mut s.clone()).map(|os| os.objects.keys().copied().collect::<Vec<_>>()).unwrap_or_default())
